@@ -44,6 +44,16 @@ Theorem C05_refused_nan_node : forall st id pts, has_nan pts = true -> reply_of 
 Proof. exact refused_nan_node. Qed.
 Print Assumptions C05_refused_nan_node.
 
+(* a time that does not fit the store's int64 nanosecond column (outside 1677-09-21 .. 2262-04-11) is refused
+   in the same way *)
+Theorem C05_refused_time_node : forall st id pts, bad_times pts = true -> reply_of (handle st (NodePts id pts)) = 1.
+Proof. intros st id pts H. cbn [handle]. unfold node_points. rewrite H. destruct (has_nan pts); reflexivity. Qed.
+Print Assumptions C05_refused_time_node.
+
+Theorem C05_refused_time_edge : forall st id par pts, bad_times pts = true -> reply_of (handle st (EdgePts id par pts)) = 1.
+Proof. intros st id par pts H. cbn [handle]. unfold edge_points. rewrite H. destruct (has_nan pts); reflexivity. Qed.
+Print Assumptions C05_refused_time_edge.
+
 Theorem C05_refused_nan_edge : forall st id par pts, has_nan pts = true -> reply_of (handle st (EdgePts id par pts)) = 1.
 Proof. exact refused_nan_edge. Qed.
 Print Assumptions C05_refused_nan_edge.
@@ -51,9 +61,10 @@ Print Assumptions C05_refused_nan_edge.
 (* ... and those are the only node-point refusals: a node-point request without not-a-number is accepted in
    every state, so whatever was refused before, a request that was acceptable stays acceptable (the checker
    demands this of the implementation for re-sent requests: spec_c05_steps) *)
-Theorem C05_node_points_accepted : forall st id pts, has_nan pts = false -> reply_of (handle st (NodePts id pts)) = 0.
+Theorem C05_node_points_accepted : forall st id pts,
+  has_nan pts = false -> bad_times pts = false -> reply_of (handle st (NodePts id pts)) = 0.
 Proof.
-  intros st id pts H. cbn [handle]. unfold node_points. rewrite H.
+  intros st id pts H H2. cbn [handle]. unfold node_points. rewrite H, H2.
   destruct (merge_batch false (node_rows (s_nodes st) id) (collapse pts)). reflexivity.
 Qed.
 Print Assumptions C05_node_points_accepted.
